@@ -173,10 +173,19 @@ def run_shipped(case, budget=400):
             # an earlier run on the SAME Dynamics object with other random choices: whatever it leaves behind
             # (queue, finder, id counter, clock) must not reach the second run
             install(Oracle(seed=case.get('seed', 0) + 1))
+            # ... every other time with OTHER parameters too (shorter periods / intervals and a shorter run), so that it
+            # leaves events queued for times at which the second run has posted nothing yet
+            pre_params = dict(params)
+            if case.get('seed', 0) % 2 == 0:
+                for k, v in list(pre_params.items()):
+                    if isinstance(v, float) and ('tInfected' in k or 'period' in k or 'time_delta' in k):
+                        pre_params[k] = v / 4.0
+                top.setMaximumTime(case['maxtime'] / 2.0)
             try:
-                dyn.set(params).run(fatal=True)
+                dyn.set(pre_params).run(fatal=True)
             except Exception as e:
                 pre_exc = type(e).__name__ + ': ' + str(e)
+            top.setMaximumTime(case['maxtime'])
             taps[0] = 0
         install(orc)
         try:
@@ -487,7 +496,7 @@ class H(Harness):
             if i % 3 == 0:
                 for p in tb['procs']:
                     p['events'] = []       # queue only: the a == 0 branch
-            out.append({'table': tb, 'dynamics': dyn, 'seed': rr.randrange(1 << 30), 'prerun': rr.random() < 0.25})
+            out.append({'table': tb, 'dynamics': dyn, 'seed': rr.randrange(1 << 30), 'prerun': rr.choice([False, False, False, False, False, True, 'vary', 'vary'])})
             i += 1
         return out
 
@@ -593,7 +602,23 @@ class H(Harness):
                     pending_rep = None
         if any(fired[i] >= fired[i + 1] for i in range(len(fired) - 1)):
             v.append({'signature': 'fired-sequence-not-increasing', 'detail': fired[:20]})
+        # "before any event with a later time": no event of any kind is executed for a time earlier than that of a posted
+        # event executed before it, and a posted event does not fire when the run ends before its time
+        hs = [o for o in obs['obs'] if o[0] == 'handler']
+        hi = None
+        for o in hs:
+            if hi is not None and o[2] < hi[2]:
+                v.append({'signature': 'posted-event-fired-before-an-event-with-an-earlier-time', 'detail': {'posted': hi, 'later_event': o}})
+                break
+            if o[5] is None and (hi is None or o[2] > hi[2]):
+                hi = o
         end = obs['time']
+        if end is not None:
+            # under synchronous dynamics TIME is the first step not executed: the last executed step is TIME - 1
+            last = end if case['dynamics'] == 'stochastic' else end - 1.0
+            ahead = [o for o in hs if o[5] is None and o[2] > last]
+            if ahead:
+                v.append({'signature': 'posted-event-fired-although-the-run-ended-before-its-time', 'detail': {'TIME': end, 'fired': ahead[:3]}})
         if end is not None and case['dynamics'] == 'stochastic':
             late = [(j, x) for j, x in ref.live.items() if x[0] < end]
             if late:
